@@ -162,6 +162,47 @@ Proof.
   intros r Hr. apply (Hdone r Hr).
 Qed.
 
+(* ---------------- independence of the read granularity ---------------- *)
+
+(* [render_prog] reads each shared object once, before computing.  The real
+   renderer reads the registry, the data maps and the bundle piecemeal, all
+   along the render.  The interleaving theorems hold for arbitrary thread
+   programs, so the placement and number of reads is immaterial: ANY program
+   that, alone on the initial store, performs no write and returns the
+   render's result may stand for the render. *)
+Definition implements_render (s0 : store rloc sval) (p : rprog) (rq : creq) : Prop :=
+  write_free rloc_eqb p s0 /\ solo_result rloc_eqb p s0 = RRender J (render_alone rq s0).
+
+Lemma render_prog_implements s0 rq : implements_render s0 (render_prog rq) rq.
+Proof. split; [apply render_write_free | apply render_result_alone]. Qed.
+
+Theorem any_read_placement :
+  forall (ps : list rprog) (rqs : list creq) (s0 : store rloc sval) (sched : list nat) c tr,
+    Forall2 (implements_render s0) ps rqs ->
+    run rloc_eqb sched (Build_config ps s0) = (c, tr) ->
+    ~ has_race tr
+    /\ (forall l, shared c l = s0 l)
+    /\ forall i rq r, nth_error rqs i = Some rq -> nth_error (threads c) i = Some (Done r) ->
+         r = RRender J (render_alone rq s0).
+Proof.
+  intros ps rqs s0 sched c tr HF Hrun.
+  assert (Hwf : forall p, In p ps -> write_free rloc_eqb p s0).
+  { intros p Hin. clear Hrun. induction HF as [|p' rq' ps' rqs' [Hw _] _ IH]; [contradiction|].
+    destruct Hin as [->|Hin]; [exact Hw|apply IH; exact Hin]. }
+  split.
+  - pose proof (write_free_race_free rloc sval tres rloc_eqb rloc_eqb_spec ps s0 sched Hwf) as Hnr.
+    rewrite Hrun in Hnr. exact Hnr.
+  - destruct (write_free_sequential rloc sval tres rloc_eqb rloc_eqb_spec ps s0 sched c tr Hwf Hrun) as (Hsh & _ & Hth).
+    split; [exact Hsh|].
+    intros i rq r Hrq Hd.
+    assert (Hp : exists p, nth_error ps i = Some p /\ implements_render s0 p rq).
+    { clear Hrun Hth Hwf Hd. revert i Hrq. induction HF as [|p' rq' ps' rqs' Himp _ IH]; intros [|i] Hrq; try discriminate.
+      - inversion Hrq; subst. exists p'; split; [reflexivity|exact Himp].
+      - apply IH; exact Hrq. }
+    destruct Hp as (p & Hp & _ & Hres).
+    destruct (Hth i p Hp) as (_ & Hdone & _). rewrite (Hdone r Hd). exact Hres.
+Qed.
+
 End Threads.
 
 (* ---------------- the definition of a race is not vacuous ---------------- *)
